@@ -119,7 +119,9 @@ fn families(z: &crate::zoo::ZooLang, sizes: &[usize]) -> Vec<Vec<u8>> {
 
 pub fn worker(ctx: &Ctx, res: &mut ShardResult) {
     let (n, k, depth) = params(&ctx.tier);
-    let zoo = crate::zoo::core_zoo();
+    // (plus `innersp`: a token with the extras character inside it)
+    let mut zoo = crate::zoo::core_zoo();
+    zoo.push(crate::zoo::innersp());
     let mut idx = 0usize;
     let sizes: Vec<usize> = if ctx.mini() { vec![10, 1000] } else if ctx.quick() { vec![10, 100, 1000, 10000] } else { vec![10, 100, 1000, 10000, 100000] };
     for z in zoo.iter() {
